@@ -81,3 +81,7 @@ Definition C05_check (c : kv_case) : bool := steps_eqb (fun o => o) (run kv_init
 
 (* io/fs.ValidPath vs the model's valid_path *)
 Definition validpath_check (c : str * bool) : bool := Bool.eqb (valid_path (fst c)) (snd c).
+
+(* C16: results only (the tree is not part of the comparison) *)
+Definition C16_check (c : kv_case) : bool :=
+  list_eqb (fun a b => obs_eqb (proj_success (fst a)) (proj_success (fst b))) (run kv_init (fst c)) (snd c).
